@@ -385,6 +385,13 @@ V("MP4-index-only-inverted", "C09", "MP4",
   ("reader.py", "        return self._file is None and self._index_file is not None\n", "        return self._index_file is not None\n"))
 V("MP4-no-refusal", "C09", "MP4",
   ("tdms.py", "        if self._reader.is_index_file_only():\n            raise RuntimeError(\"Data cannot be read from index file only\")\n", ""))
+V("TM1-toc-mask-big-endian", "C09", "TM1",
+  ("reader.py", "toc_mask = _struct_unpack('<l', lead_in_bytes[4:8])[0]", "toc_mask = _struct_unpack('>l', lead_in_bytes[4:8])[0]"))
+V("TM1-toc-mask-with-segment-byte-order", "C09", "TM1",
+  ("reader.py", "        toc_mask = _struct_unpack('<l', lead_in_bytes[4:8])[0]\n",
+   "        toc_mask = _struct_unpack('<l', lead_in_bytes[4:8])[0]\n        toc_mask = _struct_unpack(('>' if toc_mask & 64 else '<') + 'l', lead_in_bytes[4:8])[0]\n"))
+V("TM1-benign-unpack-from", "C09", None,
+  ("reader.py", "toc_mask = _struct_unpack('<l', lead_in_bytes[4:8])[0]", "(toc_mask,) = struct.unpack_from('<l', lead_in_bytes, 4)"))
 V("CO1-clamp-with-index-position", "C09", "CO1",
   ("reader.py", "            if self._data_file_size is not None and next_segment_pos > self._data_file_size:", "            if self._data_file_size is not None and file.tell() > self._data_file_size:"),
   known_miss=True)
